@@ -517,6 +517,58 @@ def reg5(ctx: Ctx) -> None:
         ctx.R.fail("REG-5", cm, fn, "customize must return its target unchanged (decorator use)")
 
 
+def reg8(ctx: Ctx) -> None:
+    """REG-8 customize always registers: in every function of the customization module that registers an elaborate_frame hook
+    for customize, each normal way out (other than handing back the decorator form for `target is None`) has passed a
+    registration -- whatever the option values.  (customize(fn) with every option off must still replace an earlier
+    customization of fn: the latest registration wins.)"""
+    cm = ctx.P.mod("_customization")
+    n = 0
+    for q, fn in cm.defs.items():
+        if not isinstance(fn, (ast.FunctionDef, ast.AsyncFunctionDef)) or not (q == "customize" or q.startswith("_") or "." in q):
+            continue
+        sites = []
+        for st in ast.walk(fn):
+            if cm.enclosing_def(st) is not fn and st is not fn:
+                # nested defs: their decorator is evaluated in fn
+                if isinstance(st, ast.FunctionDef) and cm.enclosing_def(st) is fn and any("elaborate_frame.register" in norm(d) for d in st.decorator_list):
+                    sites.append(st)
+                continue
+            if isinstance(st, ast.FunctionDef) and st is not fn and any("elaborate_frame.register" in norm(d) for d in st.decorator_list):
+                sites.append(st)
+            elif isinstance(st, ast.Expr) and isinstance(st.value, ast.Call) and "elaborate_frame.register" in norm(st.value.func):
+                sites.append(st)
+            elif isinstance(st, (ast.Assign, ast.Return)) and isinstance(getattr(st, "value", None), ast.Call) and "elaborate_frame.register" in norm(st.value.func):
+                sites.append(st)
+        if not sites:
+            continue
+        n += 1
+        ctx.R.saw(cm, q)
+        g = ctx.cfg(fn)
+        through = {g.node_of(s_).idx for s_ in sites}
+        rets = [r for r in ast.walk(fn) if isinstance(r, ast.Return) and cm.enclosing_def(r) is fn]
+        bad = None
+        for r in rets:
+            if any(norm(gx) == "target is None" and pol for gx, pol in guards_of(cm, r, fn)):
+                continue
+            rn = g.node_of(r)
+            if rn.idx in through:
+                continue
+            if not g.all_paths_pass(g.entry, {rn.idx}, through):
+                bad = r
+        # falling off the end
+        if bad is None and not g.all_paths_pass(g.entry, {g.exit.idx}, through | {g.node_of(r).idx for r in rets} | {x.idx for x in g.nodes if x.ast is not None and isinstance(x.ast, ast.Raise)}):
+            bad = fn
+        if bad is not None:
+            conds = sorted({norm(gx)[:60] for s_ in sites for gx, pol in guards_of(cm, s_, fn) if norm(gx) != "target is None"})
+            ctx.R.fail("REG-8", cm, bad, f"{q}: a path reaches `{norm(bad)[:40] if bad is not fn else 'the end'}` without registering the elaborate_frame hook (registration is conditional on {conds or 'something'}): "
+                       "customize(fn) with all options off then leaves an earlier customization / registration of fn in force instead of replacing it", construct=f"{q}: registration not on every path")
+        else:
+            ctx.R.ok("REG-8", f"{q}: every normal exit has registered the hook ({len(sites)} registration site(s))")
+    if n < 1:
+        raise AnalysisError("REG-8: no function of _customization registers an elaborate_frame hook")
+
+
 def reg7(ctx: Ctx) -> None:
     """REG-7 nothing on the resolution path memoises by equality: code objects compare equal when their contents are equal,
     so an lru_cache / cache keyed by a code object hands back the result computed for a different-but-equal one"""
@@ -538,4 +590,4 @@ def reg7(ctx: Ctx) -> None:
     ctx.R.ok("REG-7", f"no equality-keyed memoisation on {n} functions of _code_dispatch")
 
 
-C12 = [reg1_2, reg3, reg4_6, reg5, reg7]
+C12 = [reg1_2, reg3, reg4_6, reg5, reg7, reg8]
